@@ -33,7 +33,7 @@ def cases(tier, rng):
     yield {'kind': 'mux', 'term': [['group_by', ['mod', 2], [['scan', ['append'], {'l': []}, True, None]]]], 'items': [1, 2, 3, 4, 5]}
     yield {'kind': 'mux', 'term': [['roll', 2, 2, [['scan', ['append'], {'l': []}, True, None, 'factory']]]], 'items': [1, 2, 3, 4, 5]}
     yield {'kind': 'mux', 'term': [['split', ['floordiv', 2], [['scan', ['add'], 7, True, ['neg']]]]], 'items': [0, 1, 2, 3, 4]}
-    n = {'quick': 500, 'thorough': 10000, 'search': 600}[tier]
+    n = {'quick': 1500, 'thorough': 10000, 'search': 600}[tier]
     for _ in range(n):
         r = rng.random()
         if r < 0.35:
